@@ -83,6 +83,44 @@ def run(tier, seed):
     core.replay_paths(chk, g, paths, lambda a: make_driver(params, a), '2c1n edges', 'c13', params)
     core.replay_paths(chk, g, list(core.random_walks(g, 4000 if thorough else 600, 14, rng)), lambda a: make_driver(params, a),
                       '2c1n walks', 'c13', params)
+    # a client that never says Hello (this bus serves its calls all the same) is a connected client like any other: what it
+    # owns or waits for is given up when it disconnects.  The model's histories, with client 1's Hello left unsaid
+    from .framing import walk
+    nlazy = 0
+    for al, rp, nq in ((False, False, False), (True, False, False), (False, False, True)):
+        for acts in ([('Hello', (1,)), ('RequestName', (1, 1, al, rp, nq)), ('Hello', (2,)), ('RequestName', (2, 1, False, False, False)),
+                      ('Disconnect', (1,)), ('GetNameOwner', (2, 1))],
+                     [('Hello', (2,)), ('RequestName', (2, 1, False, False, False)), ('Hello', (1,)), ('RequestName', (1, 1, al, rp, False)),
+                      ('Disconnect', (1,)), ('ListQueued', (2, 1))]):
+            try:
+                ids = walk(g, acts)
+            except KeyError:
+                continue
+            drv = make_driver(params, acts)
+            try:
+                for name_, args_ in acts:
+                    if name_ == 'Hello' and args_ == (1,):
+                        for c_ in drv.slots:
+                            if drv.t[c_] is not None:
+                                drv.pos[c_] = len(drv.t[c_].log)
+                        drv.cur = None
+                        drv._connect(1)               # connected and authenticated - and no Hello
+                        # (the bus numbers a connection when it first hears from it: keep the model's numbering)
+                        drv.uid[1] = 1 if acts[0] == ('Hello', (1,)) else 2
+                    else:
+                        drv.apply(name_, args_)
+                got = drv.project()
+                want = g.nodes[ids[-1]]
+                at = lambda o: o[2] if isinstance(o, dict) else o[1]          # what client 2 was sent in the last step
+                dif = core.diff_states({'out2': at(want['out'])}, {'out2': at(got['out'])})
+            except Exception:
+                dif = [('exception', 'none', core.traceback_str()[-300:])]
+            nlazy += 1
+            if dif:
+                chk.violation('a client that never said Hello disconnects: what the other client is told differs from the model (%s)' % (
+                    acts[-1][0],), dict(kind='spec->code no Hello', module='c13', actions=repr(acts), diff=[(a, repr(b), repr(c)) for a, b, c in dif]))
+    chk.traces += nlazy
+    chk.notes['histories_without_hello'] = nlazy
     # the same graph through the client API: real DBusClientConnections on the bus (requestBusName with all flags and both
     # errback modes, releaseBusName, getNameOwner, listQueuedBusNameOwners, disconnect), results of Deferreds and the
     # NameAcquired / NameLost callbacks in arrival order
